@@ -346,6 +346,12 @@ func (w *World) atomsInto(fi *FuncInfo, fd *funcDefs, e ast.Expr, a *Atoms, seen
 					}
 					return
 				}
+				if w.standsForDroppedParam(fi, x, info) {
+					// a reviewed function that lost a parameter of this type and now reads it from
+					// a field of its receiver: the field stands for that parameter
+					a.Idents[typeLabel(info.TypeOf(x))] = true
+					return
+				}
 				a.Fields[qualField(info, x)] = true
 				w.atomsInto(fi, fd, x.X, a, seen, depth+1)
 			case types.MethodVal, types.MethodExpr:
@@ -739,6 +745,58 @@ func (w *World) fieldSinks(fi *FuncInfo, owner *types.Named, field string) []sin
 	var out []sinkExpr
 	for _, f := range w.astRegion(fi) {
 		out = append(out, w.fieldSinksLocal(f, owner, field)...)
+	}
+	if len(out) == 0 && w.sigChanged(fi.Key) {
+		out = w.returnedSinks(fi, owner, field)
+	}
+	return out
+}
+
+// returnedSinks: a reviewed function that used to store into owner.field and now - with a new
+// signature - hands the value back for its caller to store: where a caller assigns the call's
+// result to that field, the value expressions are the function's own return operands.
+func (w *World) returnedSinks(fi *FuncInfo, owner *types.Named, field string) []sinkExpr {
+	w.buildASTNewIndex()
+	var out []sinkExpr
+	for _, site := range w.astSites[fi.Key] {
+		for _, sk := range w.fieldSinksLocal(site.Fi, owner, field) {
+			idx := -1
+			switch x := ast.Unparen(sk.Expr).(type) {
+			case *ast.CallExpr:
+				if x == site.Call {
+					idx = 0
+				}
+			case *ast.Ident:
+				fd := w.defsOf(site.Fi)
+				if o := site.Fi.Pkg.TypesInfo.Uses[x]; o != nil {
+					for _, d := range fd.defs[o] {
+						if d == ast.Expr(site.Call) {
+							idx = 0
+							if tc, ok := fd.tupleOf[o]; ok && tc == d {
+								idx = fd.tupleIx[o]
+							}
+						}
+					}
+				}
+			}
+			if idx < 0 {
+				continue
+			}
+			ast.Inspect(fi.Decl.Body, func(n ast.Node) bool {
+				switch y := n.(type) {
+				case *ast.FuncLit:
+					return false
+				case *ast.ReturnStmt:
+					if idx < len(y.Results) {
+						if id, isId := y.Results[idx].(*ast.Ident); !isId || id.Name != "nil" {
+							out = append(out, sinkExpr{y.Results[idx], y.Pos()})
+						}
+					}
+				}
+				return true
+			})
+			return out
+		}
 	}
 	return out
 }
@@ -1167,4 +1225,36 @@ func identOf(e ast.Expr) *ast.Ident {
 		return x.Sel
 	}
 	return nil
+}
+
+// standsForDroppedParam: sel is `recv.f` in a reviewed method whose signature lost a parameter of
+// f's type (the reviewed signature lists that type, the present one does not): the callers all
+// handed over what the receiver already holds.
+func (w *World) standsForDroppedParam(fi *FuncInfo, sel *ast.SelectorExpr, info *types.Info) bool {
+	if fi == nil || fi.Decl.Recv == nil || !w.sigChanged(fi.Key) {
+		return false
+	}
+	id, ok := ast.Unparen(sel.X).(*ast.Ident)
+	if !ok || len(fi.Decl.Recv.List) == 0 || len(fi.Decl.Recv.List[0].Names) == 0 || fi.Decl.Recv.List[0].Names[0].Name != id.Name {
+		return false
+	}
+	t := info.TypeOf(sel)
+	if t == nil {
+		return false
+	}
+	ts := short(types.TypeString(t, nil))
+	old := sigParamTypes(w.base.sigs[fi.Key])
+	if old[ts] == 0 {
+		return false
+	}
+	if sg, ok := fi.Obj.Type().(*types.Signature); ok {
+		n := 0
+		for i := 0; i < sg.Params().Len(); i++ {
+			if short(types.TypeString(sg.Params().At(i).Type(), nil)) == ts {
+				n++
+			}
+		}
+		return n < old[ts]
+	}
+	return false
 }
